@@ -15,7 +15,7 @@ over [A-Za-z_][A-Za-z0-9_-]* incl. dashed and keyword values; container / varian
 Every annotated struct / enum of every program is judged in every language by the extracted
 `good_groups_C01` on the implementation's observation."""
 import concurrent.futures, json, os, re, subprocess, shutil, pathlib
-import vf, progs, back, extract
+import vf, progs, back, extract, irgen
 from vf import S, Lst
 
 LANGS = ['typescript', 'kotlin', 'swift', 'scala', 'go', 'python']
@@ -172,18 +172,17 @@ def obs_model(lang, fd):
 
 def item_groups(lang, cfg, it, obs):
     """the member lists the observation `obs` declares for source item `it`, in order; None = definition not found"""
+    def pick(cands, name):
+        ds = [d for d in cands if d['name'] == name]
+        if not ds:      # definition names are C09's subject: fall back to a name that ends with / contains the identifier
+            base = it.rename if it.rename is not None else it.ident
+            ds = [d for d in cands if d['name'].endswith(base)] or [d for d in cands if base in d['name']]
+        return ds[0]['groups'] if len(ds) == 1 else None
     if it.kind in ('struct', 'unit_struct'):
-        ds = [d for d in obs if d['kind'] == 'struct' and d['inner_of'] is None and d['name'] == def_name(lang, cfg, it)]
-        if len(ds) != 1:
-            return None
-        return ds[0]['groups']
+        return pick([d for d in obs if d['kind'] == 'struct' and d['inner_of'] is None], def_name(lang, cfg, it))
     if it.kind in ('alg_enum', 'unit_enum'):
         if lang == 'typescript':
-            n = it.rename if it.rename is not None else it.ident
-            ds = [d for d in obs if d['kind'] == 'enum' and d['name'] == n]
-            if len(ds) != 1:
-                return None
-            return ds[0]['groups']
+            return pick([d for d in obs if d['kind'] == 'enum'], it.rename if it.rename is not None else it.ident)
         return [g for d in obs if d['kind'] == 'struct' and d['inner_of'] and d['inner_of'][0] == it.ident for g in d['groups']]
     return []
 
@@ -292,6 +291,12 @@ def run_batch(chk, cases, via_binary=False):
     else:
         impl = vf.impl([{'cmd': 'generate', 'lang': lang, 'cfg': cases[k][2][lang], 'src': srcs[k], 'target_os': []} for k, lang in jobs])
     model = vf.model([f'(decls_src {lang} {back.cfg_sx(cases[k][2][lang])} {asts[k]["ok"]} {asts[k]["tstrs"]} ())' for k, lang in jobs])
+    mtext = vf.model([f'(gen_src {lang} {back.cfg_sx(cases[k][2][lang])} {asts[k]["ok"]} {asts[k]["tstrs"]} ())' for k, lang in jobs])
+    for (k, lang), r, mt in zip(jobs, impl, mtext):
+        if 'ok' in r and mt[0] == 'ok':
+            chk.count('bytes_compared')
+            if vf.unS(mt[1]) != r['ok']:
+                chk.count(f'render_drift_{lang}')
     with concurrent.futures.ProcessPoolExecutor(max_workers=vf.NPROC) as ex:
         iobs = list(ex.map(_extract_job, [(lang, r['ok']) if 'ok' in r else (lang, '') for (k, lang), r in zip(jobs, impl)], chunksize=16))
     judge_req, judge_meta = [], []
@@ -410,6 +415,72 @@ def report_soft(chk):
             chk.violation(kind, dict(payload, n_cases=sum(1 for x in soft(chk) if x[0] == kind)), what, no_input=True)
 
 
+# ---------------------------------------------------------------- IR-level: the back ends on IR values the parser cannot produce
+KEY_OK = re.compile(r'[A-Za-z0-9_-]+')
+
+
+def run_ir_batch(chk, n):
+    """seeded IR item sets (lib/irgen.py: keyword / capitalised originals, dashed / camelCase / upper-case keys unrelated to
+    any rename_all rule) straight into generate_types (libdrive generate_ir) and the extracted model (decls_ir): the expected
+    keys are the `renamed` ids the generator planted, judged by the same extracted good_groups_C01"""
+    import random
+    cases = []
+    for _ in range(n):
+        sd = chk.rng.getrandbits(32)
+        r = random.Random(sd)
+        items = irgen.Gen(r, edge=0.3).items(1, 4)
+        items['consts'] = []            # Kotlin / Swift / Scala stop at consts (C07 / C03)
+        for lang in LANGS:
+            cfg = gen_cfg(r, lang, progs.Program(sd))
+            if lang == 'go':
+                cfg['uppercase_acronyms'] = []      # definition names stay predictable
+            cases.append((sd, lang, cfg, items, r.random() < 0.5))
+    res = back.run_ir([(lang, cfg, items, rec) for sd, lang, cfg, items, rec in cases])
+    mdecl = vf.model([f'(decls_ir {lang} {back.cfg_sx(cfg)} {back.items_sx(items)} {vf.B(rec)})' for sd, lang, cfg, items, rec in cases])
+    with concurrent.futures.ProcessPoolExecutor(max_workers=vf.NPROC) as ex:
+        iobs = list(ex.map(_extract_job, [(c[1], r['impl'][1]) if r['impl'][0] == 'ok' else (c[1], '') for c, r in zip(cases, res)], chunksize=16))
+    req, meta = [], []
+    for (sd, lang, cfg, items, rec), r, m, (io, unparsed, anomalies) in zip(cases, res, mdecl, iobs):
+        payload = {'lang': lang, 'cfg': cfg, 'items': items, 'reconcile': rec}
+        chk.count('ir_files')
+        if r['impl'][0] != 'ok' or m[0] != 'ok':
+            chk.count(f'ir_not_generated_{lang}')
+            if (r['impl'][0] == 'ok') != (m[0] == 'ok'):
+                soft(chk).append(('ir-outcome', dict(payload, impl=r['impl'][0], model=m[0]), 'model and implementation disagree on whether output is produced (IR level)'))
+            continue
+        if r['impl'][1] != r['model'][1]:
+            chk.count(f'render_drift_{lang}')
+        mo = obs_model(lang, m[1])
+        pre = cfg.get('prefix', '') if lang in ('kotlin', 'swift') else ''
+        for st in items['structs']:
+            eg = [[f['id']['renamed'] for f in st['fields']]]
+            pick = lambda obs: ([d['groups'] for d in obs if d['kind'] == 'struct' and d['inner_of'] is None and d['name'] == pre + st['id']['renamed']] or [None])[0]
+            req.append((lang, eg, pick(io), pick(mo), payload, st['id']['original']))
+        for en in items['enums']:
+            eg = [[f['id']['renamed'] for f in v['fields']] for v in en['variants'] if v['k'] == 'struct']
+            if lang == 'typescript':
+                pick = lambda obs: ([d['groups'] for d in obs if d['kind'] == 'enum' and d['name'] == en['id']['renamed']] or [None])[0]
+            else:
+                pick = lambda obs: [g for d in obs if d['kind'] == 'struct' and d['inner_of'] and d['inner_of'][0] == en['id']['original'] for g in d['groups']]
+            req.append((lang, eg, pick(io), pick(mo), payload, en['id']['original']))
+    verdicts = vf.model([f'(c01_judge {COQ_LANG[lang]} {Lst(eg, lambda g: Lst(g, S))} {sx_groups(ig if ig is not None else [])})' for lang, eg, ig, mg, _, _ in req])
+    for (lang, eg, ig, mg, payload, ident), v in zip(req, verdicts):
+        if vf.sx_get(v, 'dom') != 'true':
+            chk.count(f'ir_outside_key_domain_{lang}')
+            continue
+        chk.evaluations += 1
+        chk.count(f'ir_judged_{lang}')
+        if sum(len(g) for g in eg):
+            chk.nontrivial.add(('ir', json.dumps(payload['items'], sort_keys=True)[:0] + ident, lang, len(chk.nontrivial)))
+        good = ig is not None and vf.sx_get(v, 'good') == 'true'
+        pl = dict(payload, item=ident, expected=eg, impl_groups=ig, model_groups=mg)
+        if not good:
+            chk.violation(f'ir-{lang}-{ident}-{len(chk.violations)}', pl,
+                          f'{lang} (IR level): the keys bound by the generated members are not the renamed ids {eg}')
+        elif ig != mg:
+            soft(chk).append(('ir-correspondence', pl, 'model and implementation observations differ at IR level although the implementation satisfies good_C01'))
+
+
 def make_case(rng, seed):
     import random
     r = random.Random(seed)
@@ -451,6 +522,7 @@ def run(chk):
             r = random.Random(sd + 1)
             bcases.append((prog, src, {lang: gen_cfg_binary(r, lang) for lang in LANGS}))
         run_batch(chk, bcases, via_binary=True)
+    run_ir_batch(chk, 150 if chk.tier == 'quick' else 3000)
     report_soft(chk)
     if chk.tier == 'thorough':
         serde_ground_truth(chk, seeds[:1500])
